@@ -65,9 +65,13 @@ def h_melody(c):
   lo = c.int('min_note', 0, 127)
   hi = c.int('max_note', 1, 128)
   c.assume(lo < hi)
+  other = med.MelodyOneHotEncoding(48, 84)  # another object in the process
   enc = med.MelodyOneHotEncoding(lo, hi)
   n = enc.num_classes
   c.check(c.eq(n, hi - lo + 2), 'num_classes')
+  c.check(other.num_classes == 38 and other.decode_event(2) == 48 and
+          other.encode_event(83) == 37,
+          'an encoding is not disturbed by another one with another range')
   i = c.int('index', 0, 129)
   c.assume(i < n)
   ev = enc.decode_event(i)
@@ -113,9 +117,14 @@ def h_performance(c):
   lo = c.int('min_pitch', 0, 127)
   hi = c.int('max_pitch', 0, 127)
   c.assume(lo <= hi)
+  other = ped.PerformanceOneHotEncoding(2, 3, 60, 61)
   enc = ped.PerformanceOneHotEncoding(nv, ms, lo, hi)
   n = enc.num_classes
   c.check(c.eq(n, 2 * (hi - lo + 1) + ms + nv), 'num_classes')
+  c.check(other.num_classes == 9 and
+          [other.decode_event(k).event_value for k in range(9)] ==
+          [60, 61, 60, 61, 1, 2, 3, 1, 2],
+          'an encoding is not disturbed by another one with other settings')
   i = c.int('index', 0, 2000)
   c.assume(i < n)
   ev = enc.decode_event(i)
